@@ -10,10 +10,13 @@ import sys
 
 ROOT = '/verif'
 RELATED = {
-    'C01_a': ['C01', 'C12'], 'C02_a': ['C02'], 'C03_a': ['C03'], 'C04_a': ['C04', 'C03'], 'C04_d1': ['C04', 'C03'], 'C05_a': ['C05'],
-    'C06_a': ['C06'], 'C07_a': ['C07'], 'C08_a': ['C08', 'C14', 'C15'], 'C09_a': ['C09'], 'C10_a': ['C10'], 'C11_a': ['C11', 'C12'],
-    'C12_a': ['C12', 'C10'], 'C13_a': ['C13', 'C10'], 'C14_a': ['C14', 'C15', 'C05'], 'C15_a': ['C15', 'C14', 'C05'],
-    'C16_a': ['C16', 'C12'], 'C17_a': ['C17', 'C02', 'C13'], 'C18_a': ['C18'], 'C19_a': ['C19', 'C01'], 'C20_a': ['C20'],
+    'C01_a': ['C01', 'C12'], 'C02_a': ['C02'], 'C03_a': ['C03'], 'C04_a': ['C04'], 'C04_d1': ['C04'], 'C05_a': ['C05'],
+    'C06_a': ['C06'], 'C07_a': ['C07'], 'C08_a': ['C08', 'C15'], 'C09_a': ['C09'], 'C10_a': ['C10'], 'C11_a': ['C11'],
+    'C12_a': ['C12'], 'C13_a': ['C13'], 'C14_a': ['C14'], 'C15_a': ['C15'],
+    'C16_a': ['C16', 'C12'], 'C17_a': ['C17', 'C02'], 'C18_a': ['C18'], 'C19_a': ['C19'], 'C20_a': ['C20'],
+    'C02_b': ['C02', 'C15'], 'C03_b': ['C03'], 'C05_b': ['C05'], 'C06_b': ['C06'], 'C07_b': ['C07'], 'C08_b': ['C08'],
+    'C10_b': ['C10'], 'C13_b': ['C13'],
+    'C04_c': ['C04'], 'C09_c': ['C09'], 'C11_c': ['C11'], 'C12_c': ['C12'], 'C14_c': ['C14', 'C10'], 'C15_c': ['C15'],
 }
 
 
